@@ -374,6 +374,7 @@ class Dispatch:
             self.sup.setdefault(a, set()).add(b)
         self.asked = {}      # type name -> node of the first isinstance test that named it
         self.exact_keys = set()   # class names looked up by type(subject)
+        self.helper_returns = set()   # value texts returned by helpers the subject was handed to
         self._memo = {}
         self._work = 0
         args = self.node.args
@@ -409,6 +410,11 @@ class Dispatch:
                 for t in st.targets:
                     if isinstance(t, ast.Name) and t.id in count:
                         return st.value.id
+        # the whole dispatch lives in helpers: the value is the one explicit parameter that is handed on
+        explicit = [p for p in self.params if p not in ("self", "cls")]
+        if len(explicit) == 1 and any(isinstance(n, ast.Call) and any(isinstance(a, ast.Name) and a.id == explicit[0] for a in n.args)
+                                      for n in A.walk_body(self.node)):
+            return explicit[0]
         return None
 
     def named(self):
@@ -480,11 +486,30 @@ class Dispatch:
         except Exception:
             return None
 
-    def _seq_elems(self, it, depth=0):
-        """Elements a literal iterable yields, in order, else None."""
+    def _seq_elems(self, it, depth=0, env=None, w=None):
+        """Elements a literal iterable yields, in order, else None.  With a store and a world, a comprehension / generator
+        over such an iterable yields its element expression evaluated for each member (a lazy `(f(x) for f in FUNCS)`)."""
         if depth > 5:
             return None
         it = self._resolved(it)
+        if isinstance(it, (ast.GeneratorExp, ast.ListComp)) and w is not None and len(it.generators) == 1 and not it.generators[0].is_async:
+            g = it.generators[0]
+            inner = self._seq_elems(g.iter, depth + 1, env, w)
+            if inner is None:
+                return None
+            out = []
+            for el in inner:
+                e2 = dict(env or {})
+                self._bind(g.target, el, e2)
+                keep = True
+                for c in g.ifs:
+                    t = self._tv(self.ev(c, e2, w))
+                    if t is None:
+                        return None
+                    keep = keep and t
+                if keep:
+                    out.append(self.ev(it.elt, e2, w))
+            return out
         if isinstance(it, (ast.Tuple, ast.List)):
             if any(isinstance(x, ast.Starred) for x in it.elts):
                 return None
@@ -736,6 +761,25 @@ class Dispatch:
     def _came_from_type(self, e):
         return getattr(e, "_from_type", False)
 
+    def _kind_of_value(self, x):
+        """What an evaluated expression evidently is: ('member', EnumClass) for `EnumClass.member` of a repository Enum,
+        ('function', name) for a function of the repository, ('const', type name) for a literal; else None."""
+        if isinstance(x, ast.Constant):
+            return ("const", type(x.value).__name__ if x.value is not None else "None")
+        d = A.dotted(x)
+        if d is None:
+            return None
+        parts = d.split(".")
+        if parts[0] in self.params or self.fa.df.is_local(parts[0]):
+            return None
+        if len(parts) == 2 and enum_members(self.fa, ast.Name(id=parts[0], ctx=ast.Load())) is not None:
+            return ("member", parts[0])
+        if len(parts) == 1:
+            f = self.fa.ck.repo.try_func("%s.%s" % (self.fa.fi.module.name, parts[0]))
+            if f is not None and f.cls is None:
+                return ("function", parts[0])
+        return None
+
     def _call(self, e, env, w):
         f = e.func
         args = [self.ev(a.value, env, w) if isinstance(a, ast.Starred) else self.ev(a, env, w) for a in e.args]
@@ -746,6 +790,18 @@ class Dispatch:
                     for n_ in names:
                         self.asked.setdefault(n_, e)
                     return self._const(any(self._isa(w, n_) for n_ in names))
+            if f.id == "isinstance" and len(args) == 2 and not e.keywords:
+                # a table entry that is either an enum member or a function working it out
+                kv, names = self._kind_of_value(args[0]), self._type_names(args[1])
+                if kv is not None and names is not None:
+                    if kv[0] == "member":
+                        return self._const(kv[1] in names or "Enum" in [n_.split(".")[-1] for n_ in names])
+                    if kv[0] == "function" and not any(n_.split(".")[-1] in ("Callable", "FunctionType", "object") for n_ in names):
+                        return self._const(False)
+            if f.id == "callable" and len(args) == 1 and not e.keywords:
+                kv = self._kind_of_value(args[0])
+                if kv is not None and kv[0] in ("function", "member"):
+                    return self._const(kv[0] == "function")
             if f.id == "type" and len(args) == 1 and not e.keywords and self._is_subject(args[0]):
                 c = self._class_expr(w)
                 c._from_type = True
@@ -757,7 +813,10 @@ class Dispatch:
                 if r is not None:
                     return r
         if not e.keywords and not any(isinstance(a, ast.Starred) for a in e.args) and any(self._is_subject(a) for a in args):
-            r = self._helper_call(e, args, w)
+            called = e
+            if isinstance(f, ast.Name) and f.id in env:
+                called = ast.Call(func=env[f.id], args=list(e.args), keywords=[])   # a function picked from a table
+            r = self._helper_call(called, args, w)
             if r is not None:
                 return r
         if isinstance(f, ast.Attribute) and f.attr == "get" and 1 <= len(args) <= 2 and not e.keywords:
@@ -792,6 +851,7 @@ class Dispatch:
         finally:
             _depth[0] -= 1
         vals = {(kind, val or "") for (kind, _env, val) in comps}
+        self.helper_returns |= {val for (kind, val) in vals if kind == "return"}
         if len(vals) == 1:
             (kind, val) = next(iter(vals))
             if kind == "return":
@@ -808,7 +868,7 @@ class Dispatch:
         if len(gen.generators) != 1 or gen.generators[0].is_async:
             return None
         g = gen.generators[0]
-        elems = self._seq_elems(self.ev(g.iter, env, w))
+        elems = self._seq_elems(self.ev(g.iter, env, w), 0, env, w)
         if elems is None:
             return None
         for el in elems:
@@ -926,7 +986,7 @@ class Dispatch:
             return [("fall", e2, None)]
         if isinstance(st, (ast.For, ast.AsyncFor)):
             e0 = dict(env)
-            elems = self._seq_elems(self.ev(st.iter, e0, w))
+            elems = self._seq_elems(self.ev(st.iter, e0, w), 0, e0, w)
             if elems is None:
                 return self._loop_once(st, e0, w, [n.id for n in ast.walk(st.target) if isinstance(n, ast.Name)])
             states, out, broke = [e0], [], []
